@@ -22,6 +22,7 @@ import Alos2.Proofs.Decode
 import Alos2.Proofs.MetadataNames
 import Alos2.Proofs.ProductOpen
 import Alos2.Proofs.ToXarray
+import Alos2.Proofs.ProductCached
 
 namespace Alos2.C13
 
@@ -95,5 +96,17 @@ theorem root_children : rootChildren = ["summary", "metadata", "imagery"] := rfl
 example : (["IMG-HH-ALOS2290760600-191011-WWDR1.5RUA", "IMG-HV-ALOS2290760600-191011-WWDR1.5RUA"].mapM
     (fun f => (groupName f).map (fun g => (g, f)))) =
     .ok [("HH", "IMG-HH-ALOS2290760600-191011-WWDR1.5RUA"), ("HV", "IMG-HV-ALOS2290760600-191011-WWDR1.5RUA")] := by decide +kernel
+
+/-- the whole-product model factors through its head (summary, volume directory, leader, image file names — what the cache-first
+    model `Model/ProductCached.lean` shares with it) and one uncached open per image file, in the order of the summary -/
+theorem product_factors (fs : Files) (rpc : Nat) :
+    openProduct fs rpc = (do
+      let (ra, su, me, imgs) ← openProductHead fs
+      let groups ← imgs.mapM (fun name => match fs.get name with
+        | some b => openImageFile b name rpc
+        | none => throw Err.fnf)
+      pure { rootAttrs := ra, summary := su, metadata := me,
+             imagery := groups.foldl (fun acc kv => assocSet acc kv.1 kv.2) [] }) :=
+  openProduct_eq_head fs rpc
 
 end Alos2.C13
